@@ -140,6 +140,10 @@ def r19_presets(rep, M, rid_nan, rid_tab):
                 rep.violation(rid_nan, construct, f"`{norm(cond)}` is constant (NaN never compares equal), so the covalent "
                               "fallback is never taken and elements without a van der Waals radius get NaN",
                               M.where(GET_RADII, node))
+            elif VDW in data_names(M, GET_RADII, cond):
+                rep.violation(rid_nan, construct, f"`{norm(cond)}` is not a NaN test: the missing van der Waals radii are stored as NaN, for which this "
+                              "test has the same value as for an ordinary radius (isinf / ordinary comparisons are never true for NaN), so the covalent fallback "
+                              "never fires and elements without a vdW radius get NaN", M.where(GET_RADII, node))
             else:
                 raise AnalysisError(f"get_radii 'vdw_covalent': test `{norm(cond)}` is not a recognised NaN predicate")
             continue
@@ -274,6 +278,11 @@ def run(rep, ctx):
         r19_4(rep, M, "R19.4")
     with rep.guard("R19.5"):
         c13.r13_2(rep, M, "R19.5")
+    rep.rule("R19.7", "get_dimensionality uses the resolved per-atom radii unchanged for the 2x supercell (tiled per copy) and for the cutoff")
+    with rep.guard("R19.7"):
+        from . import c09 as _c09
+        _c09.r09_3(rep, M, "R19.7")
+        _c09.r09_2(rep, M, "R19.7")
     rep.rule("R19.6", "SBC.get_clusters derives everything it uses from this call's radii (no state carried between calls)")
     with rep.guard("R19.6"):
         from . import c01
